@@ -13,6 +13,7 @@ Falsifier (`search`): per-bin exact integral, conservation of the filter integra
 flat-spectrum identity, evaluated on the real `rebin` output with exact sums (Fractions), independent of
 the Lean model.
 """
+import gzip
 import math
 import os
 import shutil
@@ -40,7 +41,10 @@ REQUIRED_BRANCHES = ['filter_increasing_nu', 'filter_decreasing_nu', 'sed_increa
                      'grid_unit_Hz', 'grid_unit_GHz', 'grid_unit_THz', 'filter_nu_unit_Hz', 'filter_nu_unit_GHz',
                      'filter_nu_unit_THz', 'file_wav_increasing', 'file_wav_decreasing',
                      'file_asymmetric', 'response_dtype_f8', 'response_dtype_f4', 'response_dtype_i8', 'response_dtype_i4', 'low_frequency_filter',
-                     'integer_response_low_frequency', 'notch_filter', 'rebinned_interior_zero', 'package_cube_interior_zero', 'package_files_interior_zero',
+                     'integer_response_low_frequency', 'package_cube_error_unit_differs', 'package_files_error_unit_differs', 'package_seds_gz', 'package_seds_subdir', 'package_seds_subdir_1', 'package_seds_subdir_2',
+                     'package_seds_subdir_3', 'sed_from_wav_and_nu', 'sed_from_nu_only', 'sed_from_wav_only', 'cube_from_nu_only',
+                     'cube_from_wav_only',
+                     'notch_filter', 'rebinned_interior_zero', 'package_cube_interior_zero', 'package_files_interior_zero',
                      'hist_normalize', 'hist_assign_response', 'hist_assign_both', 'hist_grid']
 ASSUMPTIONS = ['IEEE rounding is not modelled: responses compared within 1e-9 of sum|R_i|, fluxes within 1e-9 of '
                'sum|F_i R_i|, variances within 4e-9 relative',
@@ -329,7 +333,20 @@ def gen_package(rng, nodes, hetero=None, fmt=None, fine=False):
     level = nice(rng, 1e-3, 1e3, 2) * {'mJy': 1., 'Jy': 1e-3, 'cgs': 1e-12}[unit]
     flux = [[[float('%.4g' % (level * rng.uniform(0.1, 10.))) for _ in wavs[k]] for _ in range(nap)] for k in range(nm)]
     err = [[[float('%.3g' % (f * rng.uniform(0.01, 0.5))) for f in row] for row in mod] for mod in flux]
-    names = ['m%02d' % i for i in range(nm)]
+    # the uncertainties carry their own unit (cube: UNCERTAINTIES BUNIT; per-file: TOTAL_FLUX_ERR column unit)
+    unit_err = unit if rng.random() < 0.5 else rng.choice([k for k in (['mJy', 'Jy'] if fmt == 'cube' else FLUX_UNITS) if k != unit])
+    if unit_err != unit:
+        elevel = nice(rng, 1e-4, 1e2, 2) * {'mJy': 1., 'Jy': 1e-3, 'cgs': 1e-12}[unit_err]
+        err = [[[float('%.3g' % (elevel * rng.uniform(0.1, 10.))) for _ in row] for row in mod] for mod in flux]
+    # model names: a common prefix (m00, m01, ...) or distinct first characters; per-file SEDs may live in
+    # seds/<first k characters of the name>/ (length_subdir = k, the layout of the published grids)
+    if rng.random() < 0.5:
+        names = ['m%02d' % i for i in range(nm)]
+    else:
+        names = ['%s%d%s' % ('abcd'[i], i, rng.choice(['x', 'yy', 'model'])) for i in range(nm)]
+    subdir = 0 if fmt == 'cube' else rng.choice([0, 0, 1, 2, 3])
+    # how the spectral axis of the SEDs / the cube is defined: both arrays, frequencies alone, wavelengths alone
+    axes = rng.choice(['nu_only', 'wav_only'] if fmt == 'cube' else ['both', 'both', 'nu_only', 'wav_only'])
     table = list(names)
     rng.shuffle(table)
     aps = sorted({float('%.3g' % nice(rng, 10., 1e5, 3)) for _ in range(nap)})
@@ -338,7 +355,9 @@ def gen_package(rng, nodes, hetero=None, fmt=None, fine=False):
     if fmt == 'cube':
         table = list(names)                 # the cube path requires the parameter table in cube order
     return dict(wavs=wavs, names=names, table=table, flux=flux, err=err, apertures=aps if nap > 1 else None,
-                hetero=bool(hetero), fmt=fmt, unit=unit, memmap=bool(rng.random() < 0.5))
+                hetero=bool(hetero), fmt=fmt, unit=unit, unit_err=unit_err, memmap=bool(rng.random() < 0.5),
+                gz=[bool(fmt != 'cube' and rng.random() < 0.25) for _ in range(nm)], subdir=subdir, axes=axes,
+                nu_unit=rng.choice(['Hz', 'Hz', 'GHz', 'THz']))
 
 
 DIRECTED = [
@@ -768,6 +787,16 @@ def run_case(case):
             branches.add('package_cube_memmap_%s' % ('on' if pkg.get('memmap') else 'off') if pkg.get('fmt') == 'cube'
                          else 'package_files')
             branches.add('package_unit_' + pkg.get('unit', 'mJy'))
+            if pkg.get('unit_err', pkg.get('unit', 'mJy')) != pkg.get('unit', 'mJy'):
+                branches.add('package_%s_error_unit_differs' % ('cube' if pkg.get('fmt') == 'cube' else 'files'))
+            if any(pkg.get('gz') or []):
+                branches.add('package_seds_gz')
+            if pkg.get('subdir'):
+                branches.add('package_seds_subdir')
+                branches.add('package_seds_subdir_%d' % pkg['subdir'])
+            ax = pkg.get('axes', 'wav_only' if pkg.get('fmt') == 'cube' else 'both')
+            branches.add('%s_from_%s' % ('cube' if pkg.get('fmt') == 'cube' else 'sed',
+                                         {'both': 'wav_and_nu', 'nu_only': 'nu_only', 'wav_only': 'wav_only'}[ax]))
             if interior_zero(cur['r']):
                 # does the filter, re-binned on the package grid, have zero bins between non-zero ones?
                 nu0 = to_hz_wav(package_grids(pkg)[0])
@@ -804,6 +833,43 @@ def in_mjy(vals, nus, unit):
     return [Fraction(float(v)) / Fraction(float(n)) * 10 ** 26 for v, n in zip(vals, nus)]
 
 
+def given_nu(wav_um, pkg):
+    """the frequencies handed to an SED / cube defined by `nu` alone: c/lambda by astropy, in the package's frequency unit"""
+    from astropy import units as u
+    q = (np.array(wav_um, dtype=float) * u.micron).to(u.Hz, equivalencies=u.spectral())
+    return q.to(freq_unit(pkg.get('nu_unit', 'Hz')))
+
+
+def rebin_grid_hz(wav_um, pkg, cube, axes):
+    """the float Hz frequencies the filters are re-binned on for this SED / cube, in written order, derived as the code does"""
+    from astropy import units as u
+    if axes == 'nu_only':
+        nu = given_nu(wav_um, pkg)
+        if cube:
+            # the cube file keeps the wavelengths derived from nu; the reader derives nu from them again
+            wav = nu.to(u.micron, equivalencies=u.spectral())
+            return [float(v) for v in wav.to(u.Hz, equivalencies=u.spectral()).value]
+        return [float(v) for v in nu.to(u.Hz).value]
+    return to_hz_wav(wav_um)
+
+
+def one_axis_sed(sed, axes, nu):
+    """the same SED built from its frequencies alone or from its wavelengths alone"""
+    from sedfitter.sed import SED
+    s2 = SED()
+    s2.name = sed.name
+    s2.distance = sed.distance
+    if axes == 'nu_only':
+        s2.nu = nu
+    else:
+        s2.wav = sed.wav
+    if sed.apertures is not None:
+        s2.apertures = sed.apertures
+    s2.flux = sed.flux
+    s2.error = sed.error
+    return s2
+
+
 def package_grids(pkg):
     """per-model wavelength grids (older replay files carry one shared grid under 'wav')"""
     return pkg['wavs'] if 'wavs' in pkg else [pkg['wav']] * len(pkg['names'])
@@ -820,21 +886,44 @@ def run_package(case, f, flt, nus_held, d, drv):
     wavs = package_grids(pkg)
     nap = len(pkg['flux'][0])
     unit = pkg.get('unit', 'mJy')
-    aunit = {'mJy': u.mJy, 'Jy': u.Jy, 'cgs': u.erg / u.cm ** 2 / u.s}[unit]
+    unit_err = pkg.get('unit_err', unit)
+    AU = {'mJy': u.mJy, 'Jy': u.Jy, 'cgs': u.erg / u.cm ** 2 / u.s}
+    aunit = AU[unit]
     cube = pkg.get('fmt') == 'cube'
+    axes = pkg.get('axes', 'wav_only' if cube else 'both')
     try:
         with common.quiet():
             if cube:
                 # cube package (version 2): one spectral axis, values and uncertainties in `unit`
-                pk.write_cube_package(md, pkg['names'], wavs[0], np.array(pkg['flux'], dtype=float),
-                                      np.array(pkg['err'], dtype=float), apertures_au=pkg['apertures'], unit=aunit)
+                cb = pk.make_cube(pkg['names'], wavs[0], np.array(pkg['flux'], dtype=float),
+                                  np.array(pkg['err'], dtype=float), pkg['apertures'], unit=aunit)
+                if axes == 'nu_only':
+                    cb.nu = given_nu(wavs[0], pkg)       # the cube is defined by its frequencies alone
+                if unit_err != unit:
+                    cb.unc = np.array(pkg['err'], dtype=float) * AU[unit_err]
+                pk.write_conf(md, aperture_dependent=nap > 1, version=2)
+                cb.write(os.path.join(md, 'flux.fits'), overwrite=True)
+                pk.write_parameters(md, list(pkg['names']), {'PAR1': [float(i) for i in range(len(pkg['names']))]})
                 convolve_model_dir(md, [f], memmap=bool(pkg.get('memmap')))
             else:
                 # per-file package; file-listing order = order of `names`; every model has its own grid
-                pk.write_conf(md, aperture_dependent=nap > 1, version=1)
+                ksub = int(pkg.get('subdir') or 0)
+                pk.write_conf(md, aperture_dependent=nap > 1, version=1, length_subdir=ksub)
                 for k, name in enumerate(pkg['names']):
                     sed = pk.make_sed(name, wavs[k], pkg['flux'][k], pkg['err'][k], pkg['apertures'], unit=aunit)
-                    sed.write(os.path.join(md, 'seds', name + '_sed.fits'), overwrite=True)
+                    if unit_err != unit:
+                        sed.error = np.array(pkg['err'][k], dtype=float).reshape(sed.flux.shape) * AU[unit_err]
+                    if axes != 'both':
+                        sed = one_axis_sed(sed, axes, given_nu(wavs[k], pkg))
+                    sdir = os.path.join(md, 'seds', name[:ksub]) if ksub else os.path.join(md, 'seds')
+                    os.makedirs(sdir, exist_ok=True)
+                    spath = os.path.join(sdir, name + '_sed.fits')
+                    sed.write(spath, overwrite=True)
+                    if pkg.get('gz') and pkg['gz'][k]:
+                        # seds/*.fits.gz are globbed by convolve_model_dir as well
+                        with open(spath, 'rb') as fi, gzip.open(spath + '.gz', 'wb') as fo:
+                            shutil.copyfileobj(fi, fo)
+                        os.remove(spath)
                 pk.write_parameters(md, list(pkg['table']), {'PAR1': [float(pkg['names'].index(n)) for n in pkg['table']]})
                 convolve_model_dir(md, [f])
             c = ConvolvedFluxes.read(os.path.join(md, 'convolved', f.name + '.fits'))
@@ -852,14 +941,14 @@ def run_package(case, f, flt, nus_held, d, drv):
                           % (got_flux.shape, len(pkg['names']), nap))
     for mi, name in enumerate(pkg['names']):
         # this model's own grid, as SED.write stores it (sorted by frequency)
-        nu = (np.array(wavs[mi], dtype=float) * u.micron).to(u.Hz, equivalencies=u.spectral()).value
+        nu = np.array(rebin_grid_hz(wavs[mi], pkg, cube, axes))
         order = np.argsort(nu)
         nus = [float(v) for v in nu[order]]
         flux = np.array(pkg['flux'][mi], dtype=float).reshape(nap, -1)
         err = np.array(pkg['err'][mi], dtype=float).reshape(nap, -1)
         line = ['c06.convolve', fl, rats(nus), str(nap)]
         for a in range(nap):
-            line += [rats(in_mjy(flux[a, order], nus, unit)), rats(in_mjy(err[a, order], nus, unit))]
+            line += [rats(in_mjy(flux[a, order], nus, unit)), rats(in_mjy(err[a, order], nus, unit_err))]
         t = drv.ask(' '.join(line))
         n = t.nat()
         row = got_names.index(name)
@@ -877,7 +966,8 @@ def run_package(case, f, flt, nus_held, d, drv):
                                           'flux %r mJy, error %r mJy (error^2 %r); sum_i F_i R_i = %r, sum_i (E_i R_i)^2 = %r with '
                                           'R_i the exact bin integrals on this model\'s own frequency grid; package %s in %s'
                                           % (name, mi, len(pkg['names']), len(nus), wavs[mi][0], wavs[mi][-1], a, gf, ge, ge * ge,
-                                             float(mf), float(mv), 'cube (memmap=%s)' % pkg.get('memmap') if cube else 'per-file', unit)))
+                                             float(mf), float(mv), 'cube (memmap=%s)' % pkg.get('memmap') if cube else 'per-file',
+                                             unit if unit_err == unit else '%s (uncertainties in %s)' % (unit, unit_err))))
     return None
 
 
